@@ -142,6 +142,7 @@ def generate(ck):
     A("Definition x86_inst_main_idx : list Z := %s." % zl([r[0] for r in rx["x86_inst"]]))
     A("Definition x86_inst_alt_idx : list Z := %s." % zl([r[1] for r in rx["x86_inst"]]))
     A("Definition x86_inst_common_idx : list Z := %s." % zl([r[2] for r in rx["x86_inst"]]))
+    A("Definition x86_inst_encoding : list Z := %s." % zl([r[3] for r in rx["x86_inst"]]))
     legacy = [r for r in rx["x86_inst"] if r[3] < cx["encoding_fpu_first"] or cx["encoding_ext_first"] <= r[3] < cx["encoding_vex_first"]]
     A("(* opcodes (main and alternative) of the rows whose encoding is emitted by the legacy EmitX86* tails *)")
     A("Definition x86_legacy_opcodes : list Z := %s." % zl([tx["main_opcode_table"][r[0]] for r in legacy] + [tx["alt_opcode_table"][r[1]] for r in legacy]))
@@ -298,6 +299,18 @@ def generate(ck):
         ("asmjit/arm/a64assembler.cpp", "shift_op_to_ld_st_opt_map[size_t(m.shift_op())]"),
         ("asmjit/arm/a64assembler.cpp", "const SizeOpTable& table = size_op_table[map.table_id];"),
         ("asmjit/arm/a64assembler.cpp", "uint32_t encoding_index = inst_info->_encoding_data_index;"),
+        # round 4: the hand-transcribed branches of the computed-verdict families
+        ("asmjit/x86/x86opcode_p.h", "1 | kPP_66, // #2 -> NOT_BYTE_OP(1) and 66H"),
+        ("asmjit/x86/x86opcode_p.h", "1 | kW      // #8 -> NOT_BYTE_OP(1) and REX.W"),
+        ("asmjit/x86/x86assembler.cpp", "if (imm_value == 1 && !Support::test(options, InstOptions::kLongForm))"),
+        ("asmjit/x86/x86assembler.cpp", "constexpr uint32_t kEvexBits = 0x80DF8110u;"),
+        ("asmjit/x86/x86assembler.cpp", "opcode += cdisp8_shl_table[TTWLL];"),
+        ("asmjit/x86/x86assembler.cpp", "int32_t cd_offset = rel_offset >> cd_shift;"),
+        ("asmjit/x86/x86assembler.cpp", "FastUInt8 prefix = segment_prefix_table[segment_id];"),
+        ("asmjit/arm/a64assembler.cpp", "if (s && shift != imm_shift)"),
+        ("asmjit/arm/a64assembler.cpp", "uint32_t imm12 = uint32_t(offset32) >> imm_shift;"),
+        ("asmjit/arm/a64assembler.cpp", "inst_id = op_data.u_alt_inst_id;"),
+        ("asmjit/arm/a64assembler.cpp", "if (rm_rel->as<Mem>().index_id() > 30 && rm_rel->as<Mem>().index_id() != Gp::kIdZr) {"),
     ]
     stale = []
     cache = {}
